@@ -47,15 +47,18 @@ func TestMain(m *testing.M) {
 		"field-delivered-by-short-reads", "ecdh-recompute-x25519", "ecdh-recompute-nist", "p521-masked-byte-flipped", "mlkem-consecutive",
 		"xwing-both-halves", "ecies-dem-iv", "ecies-compressed-point", "pss-auto-salt", "composite-two-draws", "keygen-symmetric-copy",
 		"keygen-asymmetric-copy", "keygen-asymmetric-fn", "keygen-nonrandomized-type", "pooled-key", "jwt-signature")
+	if core.Thorough() {
+		core.DeclareProbes("rsa-primes-located-in-stream", "slhdsa-keygen-seeds-copied", "cost2-produce")
+	}
 	core.Main(m, prop, "entropy", map[string]string{
 		"aead / streamingaead / hybrid / signature / jwt factories and key types": "real",
 		"aead/subtle, streamingaead/subtle, signature/subtle constructors":        "real",
 		"keyset.Manager (ID draw, key generation)":                                "real",
 		"internal/random, secretdata.NewBytesFromRand":                            "real",
 		"crypto/ecdsa, crypto/ecdh, crypto/rsa, crypto/mlkem (Go 1.26.8)":         "real",
-		"crypto/rand.Reader":                                                      "stub (simrng behind a short-read wrapper)",
-		"stdlib-internal DRBG (ML-KEM, Miller-Rabin bases)":                       "stub (testing/cryptotest.SetGlobalRandom, seeded per run)",
-		"crypto/ecdh recomputation of ephemeral public values":                    "oracle only",
+		"crypto/rand.Reader": "stub (simrng behind a short-read wrapper)",
+		"stdlib-internal DRBG (ML-KEM, Miller-Rabin bases)":    "stub (testing/cryptotest.SetGlobalRandom, seeded per run)",
+		"crypto/ecdh recomputation of ephemeral public values": "oracle only",
 	})
 }
 
@@ -435,17 +438,46 @@ func newKeyVia(e catalog.Entry) (uint32, key.Key, error) {
 
 func entryLoc(e catalog.Entry) string { return string(e.Class) + "/" + e.KeyType }
 
-// findMaterial reports whether secret v is a copy of issued bytes: v occurs in
-// the issued material, or (keys that append derived bytes to their seeds:
-// SLH-DSA sk = seeds ‖ root) v starts with all of the issued material.
-func findMaterial(material, v []byte) bool {
+// findMaterial locates secret v in the issued bytes: v occurs in the issued
+// material, or (keys that append derived bytes to their seeds: SLH-DSA
+// sk = seeds ‖ root) v starts with all of the issued material. It returns the
+// range of material that v copies, ok=false if v is not a copy.
+func findMaterial(material, v []byte) (from, to int, ok bool) {
 	if len(v) == 0 {
-		return false
+		return 0, 0, false
 	}
 	if len(material) >= len(v) {
-		return bytes.Contains(material, v)
+		i := bytes.Index(material, v)
+		return i, i + len(v), i >= 0
 	}
-	return len(material) >= 16 && 2*len(material) >= len(v) && bytes.HasPrefix(v, material)
+	if len(material) >= 16 && 2*len(material) >= len(v) && bytes.HasPrefix(v, material) {
+		return 0, len(material), true
+	}
+	return 0, 0, false
+}
+
+// copiedDisjoint: every secret is a copy of issued bytes and no issued byte
+// serves two secrets (two halves of a key drawn once and used twice would
+// otherwise pass).
+func copiedDisjoint(material []byte, secrets []secretField) bool {
+	if len(secrets) == 0 {
+		return false
+	}
+	type rg struct{ a, b int }
+	var got []rg
+	for _, s := range secrets {
+		a, b, ok := findMaterial(material, s.data)
+		if !ok {
+			return false
+		}
+		for _, o := range got {
+			if a < o.b && o.a < b {
+				return false
+			}
+		}
+		got = append(got, rg{a, b})
+	}
+	return true
 }
 
 func (w *world) genKey(e catalog.Entry) key.Key {
@@ -470,13 +502,10 @@ func (w *world) genKey(e catalog.Entry) key.Key {
 	var secrets []secretField
 	secretsOf(k, "", 0, &secrets)
 	var cat []byte
-	allCopied := len(secrets) > 0
 	for _, s := range secrets {
 		cat = append(cat, s.data...)
-		if !findMaterial(material, s.data) {
-			allCopied = false
-		}
 	}
+	allCopied := copiedDisjoint(material, secrets)
 	r.Obs("key material", cat)
 	if !e.Randomized {
 		r.Probe("keygen-nonrandomized-type")
@@ -487,7 +516,7 @@ func (w *world) genKey(e catalog.Entry) key.Key {
 			w.t.Fatalf("harness: no secret accessor found on %T", k)
 		}
 		if !allCopied {
-			r.Violation("C20/key-not-from-rng:"+loc, fmt.Sprintf("%s: key material %s is not a range of the %d bytes issued during key generation", e.Name, core.Hex(cat, 40), len(material)))
+			r.Violation("C20/key-not-from-rng:"+loc, fmt.Sprintf("%s: key material %s is not made of disjoint ranges of the %d bytes issued during key generation", e.Name, core.Hex(cat, 40), len(material)))
 			return nil
 		}
 		w.oracles["keycopy"] = true
@@ -495,6 +524,9 @@ func (w *world) genKey(e catalog.Entry) key.Key {
 			r.Probe("keygen-symmetric-copy")
 		} else {
 			r.Probe("keygen-asymmetric-copy")
+		}
+		if e.KeyType == "slhdsa" {
+			r.Probe("slhdsa-keygen-seeds-copied")
 		}
 	} else if allCopied {
 		r.Probe("keygen-asymmetric-copy")
@@ -567,6 +599,7 @@ func (w *world) rsaKeygen(e catalog.Entry, loc string, wn win, id uint32, k key.
 	}
 	w.oracles["keycopy"] = true
 	w.r.Probe("keygen-asymmetric-copy")
+	w.r.Probe("rsa-primes-located-in-stream")
 	for i, off := range offs {
 		j := 4 + off + rapid.IntRange(0, len(primes[i])-1).Draw(w.t, "rsaPos")
 		var k2 key.Key
@@ -727,10 +760,10 @@ func (w *world) mgrAdd() {
 	var cat []byte
 	for _, s := range secrets {
 		cat = append(cat, s.data...)
-		if !findMaterial(wn.data[off:], s.data) {
-			r.Violation("C20/key-not-from-rng:"+entryLoc(e), fmt.Sprintf("%s added to a manager: key material is not a range of the bytes issued during the call", e.Name))
-			return
-		}
+	}
+	if !copiedDisjoint(wn.data[off:], secrets) {
+		r.Violation("C20/key-not-from-rng:"+entryLoc(e), fmt.Sprintf("%s added to a manager: key material is not made of disjoint ranges of the bytes issued during the call", e.Name))
+		return
 	}
 	if len(cat) > 0 {
 		if w.keyMat[string(cat)] {
@@ -813,6 +846,9 @@ func (w *world) produce(ki int) {
 	call := func() { out, err = p.produce(msg, aad) }
 	wn := w.bracket(loc, call)
 	ks.calls++
+	if ks.e.Cost == 2 {
+		r.Probe("cost2-produce")
+	}
 	r.Logf("key %d %s prim %d (%s) msg %d -> %d bytes %s, consumed [%d,%d)", ki, ks.e.Name, pi, p.kind, mi, len(out), describe(err), wn.start, wn.end)
 	if err != nil {
 		r.Violation("C20/call-failed:"+loc, fmt.Sprintf("%s: %v", ks.e.Name, err))
